@@ -312,6 +312,8 @@ Definition stmt_text (en : env) (props : list string) (s : stmt) : string :=
   | SSetAcc n o v => ("set " ++ render en (pp_tok en (EAcc n o)) ++ " = " ++ render en (pp_tok en v))%string
   | SSetMenu pid it mn v => ("set " ++ render en (pp_tok en (EMenu pid it mn)) ++ " = " ++ render en (pp_tok en v))%string
   | SExit => "exit"%string
+  | SPutField md f v => ("put " ++ render en (pp_tok en v) ++ " " ++ pname md ++ " field " ++ render en (pp_tok en f))%string
+  | SPutLoc md i v => ("put " ++ render en (pp_tok en v) ++ " " ++ pname md ++ " " ++ name_of (nth i (e_locals en) (Leaf KLocal "" 0 true)))%string
   end.
 
 Definition leaf_like (k : lclass) (n : node) : Prop := match n with Leaf k' _ _ _ => k' = k | _ => False end.
@@ -332,6 +334,8 @@ Definition text_ok_s (en : env) (props : list string) (s : stmt) : Prop :=
   | SSetAcc n o v => text_ok en (EAcc n o) /\ text_ok en v
   | SSetMenu pid it mn v => text_ok en (EMenu pid it mn) /\ text_ok en v
   | SExit => True
+  | SPutField _ f v => text_ok en f /\ text_ok en v
+  | SPutLoc _ i v => leaf_like KLocal (nth i (e_locals en) (Leaf KLocal "" 0 true)) /\ text_ok en v
   end.
 
 Lemma args_text en l : text_ok_args en l -> forall pc ind,
@@ -355,7 +359,15 @@ Theorem stmt_line en props s : text_ok_s en props s -> forall pc ind,
   gen_lingo (reify_s en props pc s) ind = (indent ind ++ stmt_text en props s ++ "
 ")%string.
 Proof.
-  destruct s as [t e|f args|f args|fam pid o v|tk ti tv|an ao av|mp mi mm mv|]; intros Hok pc ind; [| | | | | | |reflexivity].
+  destruct s as [t e|f args|f args|fam pid o v|tk ti tv|an ao av|mp mi mm mv| |pmd pf pv|lmd li lv]; intros Hok pc ind; [| | | | | | |reflexivity| |].
+  9:{ destruct Hok as (Hl & Hv). cbn [reify_s stmt_text]. unfold gen_lingo. cbn [gen_lingo_sp].
+      pose proof (gen_lingo_is_render en lv Hv pc ind) as E. unfold gen_lingo in E. rewrite E.
+      destruct (nth li (e_locals en) (Leaf KLocal "" 0 true)); try contradiction. cbn in Hl. subst k.
+      cbn [gen_lingo_sp name_of]. repeat rewrite sappend_assoc. reflexivity. }
+  8:{ destruct Hok as (Hf & Hv). cbn [reify_s stmt_text]. unfold gen_lingo. cbn [gen_lingo_sp].
+      pose proof (gen_lingo_is_render en pv Hv pc ind) as E. unfold gen_lingo in E. rewrite E.
+      pose proof (gen_lingo_is_render en pf Hf (pc + zlen (compile_e pv))%Z ind) as E2. unfold gen_lingo in E2. rewrite E2.
+      change (String.eqb "field" "minus") with false. cbn iota. repeat rewrite sappend_assoc. reflexivity. }
   7:{ destruct Hok as (Hk & Hv). cbn [reify_s stmt_text].
       pose proof (gen_lingo_is_render en (EMenu mp mi mm) Hk pc ind) as Hl. cbn [reify_e] in Hl.
       erewrite assign_line; [reflexivity | | apply (gen_lingo_is_render en mv Hv) | ].
